@@ -135,6 +135,14 @@ def _graph_case(family, g, lab, bond, rng):
 
 
 def cases(tier, seed):
+    # every sixth case additionally asks for an alignment (align_with), in turn with the x axis, the diagonal and the y axis
+    for i, c in enumerate(_cases(tier, seed)):
+        if i % 6 == 5:
+            c = dict(c, align=[[1.0, 0.0], [1.0, 1.0], [0.0, 1.0]][(i // 6) % 3])
+        yield c
+
+
+def _cases(tier, seed):
     quick = tier == 'quick'
     base = (seed * 1000003 + 12345) % (2 ** 31)
     counter = [0]
@@ -254,7 +262,11 @@ def check_case(case):
     fails = []
     np.random.seed(int(case['rng']) % (2 ** 32 - 1))
     try:
-        pos = vespr_layout(G, default_bond=case['bond'])
+        if case.get('align'):
+            # the optional alignment of the longest axis is a rotation: everything the statement says still applies
+            pos = vespr_layout(G, default_bond=case['bond'], align_with=np.array(case['align'], dtype=float))
+        else:
+            pos = vespr_layout(G, default_bond=case['bond'])
     except Exception as e:
         import traceback
         fails.append(Failure('vespr_layout', 'exception', '%s: %s | %s' % (type(e).__name__, e, traceback.format_exc()[-400:]),
